@@ -286,3 +286,186 @@ func execUnreadable(sc *Scenario, env *Env, root string, refs []*lineRef, order 
 	}
 	return vs
 }
+
+// execReplaced: a pooled project file (the fertilisation schedule of one project) is replaced by another version at a
+// seeded scheduler decision while the batch is under way (an operator saving an edited file, rsync delivering a newer
+// one). The session may serve every run the version it loaded first, or let later runs see the new one; what it must
+// not do is compute a run from a mixture, or let the replacement reach a line of another project. Oracle: every line
+// of that project equals its solo run on the old version or its solo run on the new version - all its streams from the
+// same one; every other line keeps all fault-free oracles.
+func execReplaced(sc *Scenario, env *Env, root string, refs []*lineRef, order []int, run func(order []int, spec *SchedSpec, disk *SimDisk, abortAt int) *BatchOutcome, res *Result) []batchViol {
+	r := NewRNG(sc.Sched.Sub).Sub("replaced", 0)
+	plain := func() []batchViol {
+		out := run(order, sc.Sched, NewSimDisk(), 0)
+		return checkBatchOutcome(sc, order, refs, out, res, false)
+	}
+	var cands []int
+	for wi, w := range sc.Worlds {
+		in := false
+		for _, f := range w.Fert {
+			in = in || (f.Day > w.Start() && f.Day < w.Cfg.End)
+		}
+		used := false
+		for _, l := range sc.Lines {
+			used = used || (l.World == wi && l.Bad == "")
+		}
+		if used && ((in && !w.Cfg.AutoFert) || ((w.Cfg.AutoIrr || w.Cfg.AutoFert) && len(w.Rot) > 2)) {
+			cands = append(cands, wi)
+		}
+	}
+	if len(cands) == 0 {
+		return plain()
+	}
+	wi := cands[r.Intn(len(cands))]
+	for _, c := range cands {
+		if cw := sc.Worlds[c]; (cw.Cfg.AutoIrr || cw.Cfg.AutoFert) && len(cw.Rot) > 2 && r.Bool(0.7) {
+			wi = c
+			break
+		}
+	}
+	w := sc.Worlds[wi]
+	what := "fertilisation schedule"
+	file := filepath.Join(root, "project", w.Loc, "fert_"+w.Loc+".txt")
+	w2 := *w
+	w2.Fert = append([]FertEvent{}, w.Fert...)
+	for i := range w2.Fert {
+		w2.Fert[i].Amt = 10 + (w2.Fert[i].Amt+37)%290
+	}
+	newContent := []byte(w2.FertFile())
+	if (w.Cfg.AutoIrr || w.Cfg.AutoFert) && len(w.Rot) > 2 && r.Bool(0.85) {
+		// the automatic-management table: a run asks for it once per rotation entry, so one run can meet both versions
+		what = "automatic-management table"
+		file = filepath.Join(root, "project", w.Loc, "automan.txt")
+		w2.Auto = append([]AutoLine{}, w.Auto...)
+		for i := range w2.Auto {
+			w2.Auto[i].IrrMax = 5 + (w2.Auto[i].IrrMax+15)%50
+			w2.Auto[i].IrrLow = 40 + (w2.Auto[i].IrrLow+10)%30
+			w2.Auto[i].NDem1 = (w2.Auto[i].NDem1 + 60) % 180
+			w2.Auto[i].NDem2 = (w2.Auto[i].NDem2 + 60) % 180
+		}
+		newContent = []byte(w2.AutoFile())
+	}
+	oldContent, err := os.ReadFile(file)
+	if err != nil {
+		return plain()
+	}
+	put := func(b []byte) {
+		tmp := file + ".incoming"
+		os.WriteFile(tmp, b, 0o644)
+		os.Rename(tmp, file)
+	}
+	// references on the new version
+	put(newContent)
+	onNew := map[int]*lineRef{}
+	for i, l := range sc.Lines {
+		if l.World == wi {
+			onNew[i] = freshReference(env, root, sc.lineArgs(i), outIDOf(sc, i))
+			res.add("reference.runs", 1)
+		}
+	}
+	put(oldContent)
+	for _, ref := range onNew {
+		if ref == nil || ref.died || ref.crashed != "" {
+			return plain()
+		}
+	}
+	probe := run(order, sc.Sched, NewSimDisk(), 0)
+	vs := checkBatchOutcome(sc, order, refs, probe, res, false)
+	n := len(probe.Decisions)
+	if n < 3 {
+		return vs
+	}
+	at := r.Range(1, n-1)
+	if r.Bool(0.5) {
+		at = r.Range(1, min(n-1, 80))
+	}
+	// a run that asks for the file more than once: put the replacement between two of its Gets (half of the time)
+	byTask := map[string][]int{}
+	var tasks []string
+	for _, rel := range probe.Released {
+		if rel.Point == "pool.get" && rel.Detail == file {
+			if len(byTask[rel.Task]) == 0 {
+				tasks = append(tasks, rel.Task)
+			}
+			byTask[rel.Task] = append(byTask[rel.Task], rel.Dec)
+		}
+	}
+	var multi []string
+	for _, t := range tasks {
+		if ds := byTask[t]; len(ds) >= 2 && ds[len(ds)-1] > ds[0] {
+			multi = append(multi, t)
+		}
+	}
+	if len(multi) > 0 && r.Bool(0.7) {
+		ds := byTask[multi[r.Intn(len(multi))]]
+		at = r.Range(ds[0]+1, ds[len(ds)-1])
+		res.add("reach.replacement-between-two-gets-of-one-run", 1)
+	}
+	if s := sc.Params["replaceat"]; s != "" {
+		fmt.Sscan(s, &at)
+	}
+	sp := *sc.Sched
+	sp.Decisions, sp.Policy = probe.Decisions, ""
+	done := false
+	batchFaultHook = func(k int) {
+		if k >= at && !done {
+			done = true
+			put(newContent)
+		}
+	}
+	out := run(order, &sp, NewSimDisk(), 0)
+	batchFaultHook = nil
+	put(oldContent)
+	if !done {
+		return vs
+	}
+	res.add("fault.pooled-file-replaced-mid-batch", 1)
+	out.Excused = map[int]string{}
+	for pos, li := range order {
+		if sc.Lines[li].World == wi {
+			out.Excused[pos] = "reads the " + what + " that is replaced"
+		}
+	}
+	// the set-once oracle of the pool history does not apply to the replaced path under this fault (a session may re-read)
+	var pool []poolEvent
+	for _, ev := range out.Pool {
+		if ev.Path != file {
+			pool = append(pool, ev)
+		}
+	}
+	out.Pool = pool
+	tag := fmt.Sprintf("[%s of project %s replaced at decision %d] ", what, w.Loc, at)
+	res.add("fault.replaced."+strings.Fields(what)[0], 1)
+	for _, v := range checkBatchOutcome(sc, order, refs, out, res, false) {
+		v.detail = tag + v.detail
+		vs = append(vs, v)
+	}
+	if out.Panic != "" || out.DecisionCap || out.Deadlock != "" {
+		return vs
+	}
+	failed := map[string]bool{}
+	for _, l := range parseDispatcher(out.Stdout).ErrorLines {
+		id := l
+		if k := strings.IndexByte(l, ' '); k > 0 {
+			id = l[:k]
+		}
+		failed[id] = true
+	}
+	for pos := range out.Excused {
+		li := order[pos]
+		id := fmt.Sprintf("[%d]", pos)
+		got := outputsOf(out.Disk, outIDOf(sc, li))
+		eq := func(ref *lineRef) bool {
+			return ref.success == !failed[id] && (!ref.success || diffFiles(ref.files, got) == "")
+		}
+		switch {
+		case eq(refs[li]):
+			res.add("reach.line-computed-from-the-old-version", 1)
+		case eq(onNew[li]):
+			res.add("reach.line-computed-from-the-new-version", 1)
+		default:
+			vs = append(vs, batchViol{"replaced-file", "run-equals-neither-version", tag + fmt.Sprintf("line %s equals neither its solo run on the old version (%s) nor on the new version (%s)", id, diffFiles(refs[li].files, got), diffFiles(onNew[li].files, got)), id})
+		}
+	}
+	return vs
+}
